@@ -234,7 +234,7 @@ func checkC18(c *Ctx) {
 					for _, b := range g.Blocks {
 						for _, in := range b.Instrs {
 							ta, ok := in.(*ssa.TypeAssert)
-							if !ok || ta.CommaOk || !reachesParam(ta.X, cb, 2) {
+							if !ok || ta.CommaOk || !reachesParam(ta.X, cb, cbParamIdx(cb, 2)) {
 								continue
 							}
 							n++
@@ -255,7 +255,7 @@ func checkC18(c *Ctx) {
 							guarded := false
 							if blk != nil {
 								for _, cc := range controllingConds(blk, nil) {
-									if cc.cond == ssa.Value(cb.Params[0]) && !cc.pol {
+									if cc.cond == ssa.Value(cbParam(cb, 0)) && !cc.pol {
 										guarded = true
 									}
 								}
@@ -292,6 +292,8 @@ func checkC18(c *Ctx) {
 			}
 		}
 	}
+	c.ruleLoggerContext("C18-R6")
+	c.ruleGuardedMaps("C18-R7")
 	_ = token.ADD
 	_ = types.Typ
 }
